@@ -9,6 +9,9 @@
 
 #include "clipper2/clipper.h"
 #include "clipper2/clipper.offset.h"
+#ifdef CLIPPER2_VERIF
+#include "clipper2/clipper.verif.h"
+#endif
 
 namespace Clipper2Lib {
 
@@ -485,6 +488,9 @@ void ClipperOffset::DoGroupOffset(Group& group)
 	{
 		Path64::size_type pathLen = path_in_it->size();
 		path_out.clear();
+#ifdef CLIPPER2_VERIF
+		CLIPPER2_VERIF_YIELD(5);
+#endif
 		if (pathLen == 0) continue; // nothing to offset (and open end types index path[0])
 
 		if (pathLen == 1) // single point
